@@ -162,11 +162,14 @@ def solveLU (doPivoting : Bool) (absval : K → Q) (A : Mat n K) (b : Vec n K) :
 
 /-! ### determinant -/
 
-/-- the LU branch of `DenseMatrix::determinant`: `det = nonsingular ? sign : 0; for i: det *= A[i][i]` -/
+/-- the LU branch of `DenseMatrix::determinant`:
+`det = sign (set by ElimDet); for i: det *= A[i][i]; det = cond(nonsingularLanes, det, 0)`.
+(The product of the singular case is computed by the code and then discarded; it has no observable effect.) -/
 def detLU (doPivoting : Bool) (absval : K → Q) (A : Mat n K) : K :=
-  forUp n (if (luDecomp doPivoting absval detFunc A (1 : K)).ok
-           then (luDecomp doPivoting absval detFunc A (1 : K)).s else (0 : K))
-    fun i det => det * (luDecomp doPivoting absval detFunc A (1 : K)).A.f i i
+  if (luDecomp doPivoting absval detFunc A (1 : K)).ok then
+    forUp n (luDecomp doPivoting absval detFunc A (1 : K)).s
+      fun i det => det * (luDecomp doPivoting absval detFunc A (1 : K)).A.f i i
+  else (0 : K)
 
 /-! ### invert -/
 
